@@ -303,7 +303,7 @@ func (m *Model) RunPathAPI(s *Sink, rule string) {
 			s.Violation(rule, fnKey(st)+"|unknown name is reported as not found", m.Pos(st.Pos()), "an unknown template name does not take the miss edge to the template-not-found error")
 		}
 	}
-	// the configured directory is the caller's spelling, normalised only by removing slashes at its ends (or by a path
+	// the configured directory is the caller's spelling, normalised only by removing slashes at its end (or by a path
 	// cleaner): whatever is stored into a configuration's TemplateDir is the given directory passed through such calls only
 	var dirValue func(v ssa.Value, d int) string // "" = fine, else what is wrong
 	dirValue = func(v ssa.Value, d int) string {
@@ -376,6 +376,9 @@ func (m *Model) RunPathAPI(s *Sink, rule string) {
 				if !isK || cut == "" || strings.Trim(cut, "/") != "" {
 					return fmt.Sprintf("is passed through %s with %s: only slashes may be removed (a cutset is a set of characters: \"./\" also eats the dots of \"../x\" and \".hidden\")", name, valueDesc(x.Call.Args[1]))
 				}
+				if name == "strings.Trim" || name == "strings.TrimLeft" || name == "strings.TrimPrefix" {
+					return fmt.Sprintf("is passed through %s with %s, which removes the slash an absolute directory starts with: \"/srv/app/templates\" becomes \"srv/app/templates\", a directory relative to the working directory, and loading fails (or loads another tree)", name, valueDesc(x.Call.Args[1]))
+				}
 				return dirValue(x.Call.Args[0], d+1)
 			case "path/filepath.Clean", "path.Clean", "path/filepath.ToSlash", "path/filepath.FromSlash":
 				return dirValue(x.Call.Args[0], d+1)
@@ -403,7 +406,7 @@ func (m *Model) RunPathAPI(s *Sink, rule string) {
 	nDirStores := 0
 	report := func(fn *ssa.Function, at ssa.Instruction, bad string) {
 		nDirStores++
-		key := fmt.Sprintf("%s|the template directory is kept as given, less the slashes at its ends", fnKey(fn))
+		key := fmt.Sprintf("%s|the template directory is kept as given, less the slashes at its end", fnKey(fn))
 		if bad == "" {
 			s.OK(rule, key, m.InstrPos(at), "the stored value is the option itself passed only through slash trimming / path cleaning")
 		} else {
